@@ -270,6 +270,7 @@ pub fn minimize(case: &Case, finding: &Finding, budget: usize) -> (Case, Finding
         if !m.best.bogus_paths.is_empty() {
             let mut c = m.best.clone();
             c.bogus_paths.clear();
+            c.bogus_first = false;
             m.attempt(c);
         }
         if m.best.list_via_pipe {
